@@ -68,6 +68,9 @@ impl Hook {
         };
 
         for function in functions {
+            // Only a stop requested by this hook ends the chain, not an execution that had already
+            // finished before it ran (e.g. the last instruction of the code was just executed)
+            let was_finished = ax.state.finished;
             let res = match function(ax, mnemonic) {
                 Ok(res) => res,
                 Err(e) => {
@@ -76,7 +79,7 @@ impl Hook {
                     return Err(e.into());
                 }
             };
-            if ax.state.finished || res == HookResult::Handled {
+            if (ax.state.finished && !was_finished) || res == HookResult::Handled {
                 ax.hooks.running = false;
                 return Ok(());
             }
